@@ -50,7 +50,7 @@ def gen_settings(rng: random.Random, profile: Optional[Dict[str, Any]] = None) -
         "enable_optimized_z3_queries": rng.random() < 0.5,
         "global_fuzzer": rng.random() < 0.2,
         "fuzzer": rng.choice(["coverage", "coverage", "plain"]),
-        "timeout_seconds": rng.choice([None, None, 1, 3, 10, 60]),
+        "timeout_seconds": rng.choice([None, None, None, 1, 1, 3, 3, 10, 10, 60, 60, 0]),
     }
     if s["activate_unsat_support"] and rng.random() < 0.7:
         s["tree_insertion_methods"] = None
@@ -120,6 +120,7 @@ def make_plan(run_seed: int, profile: Dict[str, Any]) -> Dict[str, Any]:
         "clock": {
             "epoch": rng.choice([1_700_000_000.25, 0.0, 2_147_483_647.5, 4_102_444_800.9, 12.75]),
             "c_call": rng.choice([1.1e-6, 1.1e-6, 1.1e-5, 1.1e-4, 1.1e-7]),
+            "mono_origin": rng.choice([1000.0, 1000.0, 1000.0, 0.0, 0.25, 86400.5, 4.0e9]),
         },
         "ops": ops,
         "faults": [],
